@@ -98,11 +98,12 @@ class Contributor(DaeObject):
 
     def save(self):
         """Saves the contributor info back to :attr:`xmlnode`"""
-        _correctValInNode(self.xmlnode, 'author', self.author)
-        _correctValInNode(self.xmlnode, 'authoring_tool', self.authoring_tool)
-        _correctValInNode(self.xmlnode, 'comments', self.comments)
-        _correctValInNode(self.xmlnode, 'copyright', self.copyright)
-        _correctValInNode(self.xmlnode, 'source_data', self.source_data)
+        order = ('author', 'authoring_tool', 'comments', 'copyright', 'source_data')
+        _correctValInNode(self.xmlnode, 'author', self.author, order[:0])
+        _correctValInNode(self.xmlnode, 'authoring_tool', self.authoring_tool, order[:1])
+        _correctValInNode(self.xmlnode, 'comments', self.comments, order[:2])
+        _correctValInNode(self.xmlnode, 'copyright', self.copyright, order[:3])
+        _correctValInNode(self.xmlnode, 'source_data', self.source_data, order[:4])
 
     def __str__(self):
         return '<Contributor author=%s>' % (str(self.author),)
